@@ -829,6 +829,13 @@ func runROEmptyDir(cfg *RunCfg, rep *Reporter, cov *Cov) {
 				}
 				got = observe(ro, oo)
 			}
+			// Sync belongs to the calls of a read-only handle too: it has nothing to create here
+			if nx, err := kSync(ro); err != nil || nx != 0 {
+				rep.Report(Violation{Property: "C19", Sig: "lockmon|ro-empty-dir:sync:" + errClass(err), What: fmt.Sprintf("Sync on a read-only handle of a directory without segment files: want (0, nil), got (%d, %s)", nx, errText(err)), Replay: map[string]any{"cfg": icfg.String()}})
+			}
+			if again := observe(ro, oo); strings.Join(again, "\n") != strings.Join(got, "\n") {
+				rep.Report(Violation{Property: "C19", Sig: "lockmon|ro-empty-dir:answers-change-after-sync", What: "a read-only handle on a directory without segment files answers differently after Sync", Replay: map[string]any{"cfg": icfg.String()}})
+			}
 			kClose(ro)
 			// the reference handle created its (empty) first segment, the read-only one has no file at
 			// all: the segment count of Stat differs by construction
